@@ -1043,6 +1043,16 @@ class Scheduler:
         self._jobs.clear()
         self._finalized_jobs.clear()
 
+        # A previous execution that stopped early (e.g. failed while other jobs were still
+        # in flight) leaves behind events of jobs that no longer exist, resource units that
+        # were never returned and jobs waiting for limits. They must not leak into the next
+        # execution.
+        self.events_queue = queue.Queue()
+        for limit_name in self.limits_used:
+            self.limits_used[limit_name] = 0
+        self._jobs_pending_limits.clear()
+        self._tracked_promises.clear()
+
     def add_executor(self, executor: Executor) -> None:
         """
         Add executor to scheduler.
